@@ -191,6 +191,7 @@ fn pd(k: i64) -> PositionDerivative {
         _ => PositionDerivative::Acceleration,
     }
 }
+#[allow(dead_code)]
 fn pdk(p: PositionDerivative) -> i64 {
     match p {
         PositionDerivative::Position => 0,
@@ -198,6 +199,7 @@ fn pdk(p: PositionDerivative) -> i64 {
         PositionDerivative::Acceleration => 2,
     }
 }
+#[allow(dead_code)]
 fn opt_k(v: &Value) -> Option<i64> {
     v.as_array().unwrap().first().map(|x| x.as_i64().unwrap())
 }
